@@ -124,6 +124,7 @@ func run(cfg RunConfig, pkgPaths []string) (*RunOutput, error) {
 		if err != nil {
 			return nil, err
 		}
+		out.BindErrs = append(out.BindErrs, cs.Dups...)
 		P.cs = cs
 		var names []string
 		for n := range cs.Funcs {
